@@ -11,7 +11,7 @@ from datetime import timedelta
 from typing import Any, Dict
 
 from rpv import families
-from rpv.checks.fullreport_common import make_case, run_case
+from rpv.checks.fullreport_common import corpus_case, make_case, run_case
 from rpv.expected import Expected
 
 PROPERTY_ID = "C19"
@@ -114,6 +114,8 @@ def run_shard(ctx: Any) -> None:
             _one(ctx, expected, colliding_case(rng), f"c19-{index}", "colliding-row-ids")
         elif index % 8 == 1:
             _one(ctx, expected, year_inversion_case(rng), f"c19-{index}", "own-year-order-inversion")
+        elif index % 8 == 2 and corpus_case(rng, index // 8) is not None:
+            _one(ctx, expected, corpus_case(ctx.rng("corpus", index), index // 8), f"c19-{index}", "shipped-example-input")
         else:
             _one(ctx, expected, make_case(rng), f"c19-{index}", "general")
 
